@@ -31,7 +31,7 @@ SOURCES = [
     "src/pylife/strength/fkm_nonlinear/constants.py",
     "src/pylife/strength/damage_parameter.py",
     "src/pylife/strength/fkm_load_distribution.py",
-    "src/pylife/strength/fkm_nonlinear/woehler_fkm_nonlinear.py",
+    "src/pylife/strength/woehler_fkm_nonlinear.py",
     "src/pylife/stress/rainflow/fkm_nonlinear.py",
     "src/pylife/stress/rainflow/recorders.py",
     "src/pylife/materiallaws/notch_approximation_law.py",
